@@ -412,7 +412,7 @@ def directed():
 
 
 def generate(rng, tier):
-    n, nh = (600, 250) if tier == "quick" else (5500, 2500)
+    n, nh = (600, 250) if tier == "quick" else (4500, 2000)
     return [_gen_case(rng) for _ in range(n)] + [_gen_history(rng) for _ in range(nh)]
 
 
